@@ -10,6 +10,11 @@
                     [1;2] Delete skipped: Find found no node
                     [1;9] the list type has no such method (nothing called)
             a recovered panic is [2], a hang [3]; either ends the case.
+
+   Checkpointed histories (the "large" stream): kind 2 = SList, 3 = DList, the
+   same records plus code 13 = Look.  Per record only the call's result is
+   written; a Look writes enc_zs (Each sequence) ++ [First; Last] (DList only).
+   Code 13 is not a record of the kinds 0 / 1.
    (mirror: harness/c19.go) *)
 
 From Gogu Require Import Base Mem C19_Model.
@@ -73,17 +78,60 @@ Definition decode (w : list Z) : option (kind * Z * list op) :=
   | _ => None
   end.
 
+(* checkpointed histories *)
+Definition qop_of (r : list Z) : option qop :=
+  match r with
+  | [13; _; _] => Some QLook
+  | _ => match op_of r with Some o => Some (QDo o) | None => None end
+  end.
+
+Fixpoint qops_of (rs : list (list Z)) : option (list qop) :=
+  match rs with
+  | [] => Some []
+  | r :: rs' =>
+      match qop_of r, qops_of rs' with
+      | Some o, Some os => Some (o :: os)
+      | _, _ => None
+      end
+  end.
+
+Definition enc_qobs (o : qobs) : list Z :=
+  match o with
+  | QRes r => enc_ret r
+  | QSeen vs fl => enc_zs vs ++ match fl with Some (f, l) => [f; l] | None => [] end
+  | QFault => [2]
+  | QHang => [3]
+  end.
+
+Definition decode_q (w : list Z) : option (kind * Z * list qop) :=
+  match w with
+  | k :: v :: rest =>
+      match (if k =? 2 then Some KS else if k =? 3 then Some KD else None), qops_of (chunks 3 rest) with
+      | Some kd, Some ops => Some (kd, v, ops)
+      | _, _ => None
+      end
+  | _ => None
+  end.
+
 Definition c19_run (w : list Z) : list Z :=
   match decode w with
   | Some (k, v, ops) => flat_map enc_obs (run_model k v ops)
-  | None => wire_error
+  | None =>
+      match decode_q w with
+      | Some (k, v, ops) => flat_map enc_qobs (runq_model k v ops)
+      | None => wire_error
+      end
   end.
 
 (* the specification's observation for the same input *)
 Definition c19_spec (w : list Z) : list Z :=
   match decode w with
   | Some (k, v, ops) => flat_map enc_obs (run_spec k v ops)
-  | None => wire_error
+  | None =>
+      match decode_q w with
+      | Some (k, v, ops) => flat_map enc_qobs (runq_spec k v ops)
+      | None => wire_error
+      end
   end.
 
 Definition c19_agree (w obs : list Z) : bool := zlist_eqb obs (c19_run w).
